@@ -361,7 +361,7 @@ def _worker(job):
             # v is a pair (first stream, second stream); earlier use: complete / partial / abandoned generator
             v1, v2 = v
             fresh, _ = impl_tokens(impl_make(cfg, ref), ref, v2, "list")
-            for how in ("complete", "partial", "abandoned", "callback", "deferred"):
+            for how in ("complete", "partial", "abandoned", "callback", "deferred", "source error", "callback error"):
                 tk2 = impl_make(cfg, ref)
                 ref[0] = v1
                 if how == "deferred":
@@ -386,7 +386,25 @@ def _worker(job):
                         viol["C08"] = {"cfg": cfg, "first_stream": v1, "second_stream": v2,
                                        "what": "generator delivery differs from list delivery when the generator is created before an earlier one is consumed", "generator": got, "list": fresh}
                     continue
-                if how == "complete":
+                if how == "source error":
+                    # the earlier run died in the middle: its source raised after about half of the frames
+                    class Failing(ListSource):
+                        def read(self_):
+                            if self_.i >= (len(v1) + 1) // 2:
+                                raise IOError("source failure injected by the check")
+                            return ListSource.read(self_)
+                    try:
+                        tk2.tokenize(Failing(len(v1)))
+                    except IOError:
+                        pass
+                elif how == "callback error":
+                    def cb(*a):
+                        raise KeyError("callback failure injected by the check")
+                    try:
+                        tk2.tokenize(ListSource(len(v1)), callback=cb)
+                    except KeyError:
+                        pass
+                elif how == "complete":
                     tk2.tokenize(ListSource(len(v1)))
                 elif how == "callback":
                     tk2.tokenize(ListSource(len(v1)), callback=lambda *a: None)
